@@ -16,10 +16,12 @@ RULE = ("cases = (district-heating loop recipe with 1..6 consumers in the five s
         "Q+dT, Q+T_ret, heat exchangers with and without flow control, Q of either sign, options sequential / bidirectional, "
         "numba on/off, tight tolerances). Clauses: duty identity q = mdot * cp_mean * (T_in - T_out) per exchanger / consumer; "
         "set-points of the two prescribed consumer quantities (whenever mdot is prescribed or the mode is bidirectional); loop "
-        "closure of the circulation pump's reported heat. Non-trivial = >= 2 consumers in different modes, or a negative Q, "
+        "closure: the heat reported by the circulation pump(s) of a loop (one pump, a second pump in parallel, a decentral "
+        "second pump) equals what consumers, exchangers and pipes take out; every pump's reported heat equals the heat added to "
+        "its own stream. Non-trivial = >= 2 consumers in different modes, or a negative Q, "
         "or bidirectional mode. Distinct = distinct recipe hash.")
 ASSUMPTIONS = ["cp_mean = (cp(T_in) + cp(T_out)) / 2 with T_in the temperature of the upstream junction",
-               "loop closure is asserted for loops fed by exactly one circulation pump (no ext grids); bound = sum over elements of "
+               "loop closure is asserted for closed loops fed by circulation pumps only (no ext grids, no sinks / sources); bound = sum over elements of "
                "mdot * (cp_max - cp_min) * |dT| + 1e-6 relative",
                "sequential mode, consumer specified by (Q, T_ret): duty identity is a known finding (needs the coupled iteration)"]
 EX = {"quick": 45, "thorough": 1800}
@@ -139,28 +141,47 @@ def evaluate(case):
     pumps = [(t, idx) for t in ("circ_pump_pressure", "circ_pump_mass") if t in net and len(net[t]) for idx in net[t].index
              if net[t].at[idx, "in_service"]]
     n_eg = len(net.ext_grid[net.ext_grid.in_service]) if "ext_grid" in net and len(net.ext_grid) else 0
-    if len(pumps) == 1 and n_eg == 0:
-        t, idx = pumps[0]
+    if rec.get("meta", {}).get("feeder2"):
+        labels.add("second_feeder:" + rec["meta"]["feeder2"])
+    # every pump: the heat it reports is the heat it adds to its own stream (return junction temperature -> its outlet
+    # temperature), up to the heat-capacity discretisation
+    pump_streams = []
+    for t, idx in pumps:
         s = sts.get((t, int(idx)))
-        if s is not None and s["m"] > 1e-8:
-            q_pump = float(net["res_" + t].at[idx, "qext_w"])
-            taken = 0.0
-            bound = cp_spread({"m": s["m"], "t_in": s["t_in"], "t_out": s["t_out"]})
-            for key, e in sts.items():
-                if key[0] in ("circ_pump_pressure", "circ_pump_mass") or e["m"] < 1e-10:
-                    continue
-                taken += duty(e)
-                bound += cp_spread(e)
-            labels.add("loop_closure")
-            if not abs(q_pump - taken) <= bound + 1e-6 * abs(taken) + 1e-3:
-                f.append(Finding("loop_closure", "C11.loop_closure", {"pump_qext_w": q_pump, "sum_taken_out_w": taken,
-                                                                       "discretisation_bound_w": bound,
-                                                                       "pump_stream": s}))
+        if s is None or s["m"] <= 1e-8:
+            continue
+        pump_streams.append((t, idx, s))
+        q_pump = float(net["res_" + t].at[idx, "qext_w"])
+        added = -duty(s)
+        if not abs(q_pump - added) <= cp_spread(s) + 1e-6 * abs(added) + 1e-3:
+            f.append(Finding("pump_duty", "C11.pump_duty", {"pump": [t, int(idx)], "reported_qext_w": q_pump,
+                                                            "mdot_cp_dT_of_its_stream": added, "stream": s}))
+        if abs(tj_of(net, s["down"]) - s["t_out"]) > 1e-3:
+            labels.add("pump_flow_junction_is_mixing_node")
+    has_mass_exchange = any(t in net and len(net[t]) and net[t].in_service.any() for t in ("sink", "source", "mass_storage"))
+    if pump_streams and len(pump_streams) == len(pumps) and n_eg == 0 and not has_mass_exchange:
+        q_pumps = sum(float(net["res_" + t].at[idx, "qext_w"]) for t, idx, _ in pump_streams)
+        taken = 0.0
+        bound = sum(cp_spread(s) for _, _, s in pump_streams)
+        for key, e in sts.items():
+            if key[0] in ("circ_pump_pressure", "circ_pump_mass") or e["m"] < 1e-10:
+                continue
+            taken += duty(e)
+            bound += cp_spread(e)
+        labels.add("loop_closure" if len(pump_streams) == 1 else "loop_closure_several_pumps")
+        if not abs(q_pumps - taken) <= bound + 1e-6 * abs(taken) + 1e-3:
+            f.append(Finding("loop_closure", "C11.loop_closure", {"pumps_qext_w": q_pumps, "sum_taken_out_w": taken,
+                                                                   "discretisation_bound_w": bound, "n_pumps": len(pump_streams),
+                                                                   "pump_stream": pump_streams[0][2]}))
     nontriv = len(modes) >= 2 or neg_q or bidir
     out = Outcome(findings=f, labels=labels | ({"negative_q"} if neg_q else set()), nontrivial=nontriv,
                   sample={"recipe": abbreviate(rec), "options": opts, "consumer_modes": sorted(modes)})
     out.worst = worst
     return out
+
+
+def tj_of(net, j):
+    return float(net.res_junction.t_k.at[j])
 
 
 def run_shard(coll, tier, seed, shard, nshards, known):
